@@ -11,19 +11,27 @@
 (*    the key bindings: a carriage return submits), FALSE the repaired code *)
 (*    (it is ignored).  The oracle allows several outcomes of such a paste: *)
 (*    the oracle state follows the one the transcription matches, if any.   *)
+(*    The application can assign the value ("setval"); ValSync = FALSE is   *)
+(*    the code as found (the cached count and the cursor are what they were *)
+(*    until the next insertion or deletion refreshes the count), TRUE the   *)
+(*    repaired code (every command first recounts and keeps the cursor      *)
+(*    within the text).  Two assignments in a row are not explored: the     *)
+(*    widget cannot know of the first (variable assigned).  Assign = FALSE  *)
+(*    leaves the assignments out (MC_LineEdit_orig.cfg: the stale count of   *)
+(*    Orig is to be refuted by deletions alone).                            *)
 (*  - the text input's word motions and word deletion (index loops with     *)
 (*    clamping) on every (text, cursor) reached, against BackWord/ForwWord. *)
 (* ASSUMEs are unit checks of the oracle.  A violation here is a candidate  *)
 (* scenario, not a verdict about the code.                                  *)
 EXTENDS LineEdit, Integers, TLC
-CONSTANTS MaxSteps, MaxLen, Orig, PasteExec
+CONSTANTS MaxSteps, MaxLen, Orig, PasteExec, ValSync, Assign
 
 \* grapheme 1: narrow letter, 2: wide letter, 3: blank, 4: hyphen, 5: carriage return (cannot be displayed)
 Tab == << <<1, 1>>, <<2, 1>>, <<1, 0>>, <<1, 2>>, <<0, 3>> >>
 Cfg == [enter |-> "clear", pw |-> 0]
 
-VARIABLES ed, tf, steps
-vars == <<ed, tf, steps>>
+VARIABLES ed, tf, steps, assigned
+vars == <<ed, tf, steps, assigned>>
 
 Cmd(k, via, gs, i) == [k |-> k, via |-> via, gs |-> gs, i |-> i]
 Cmds ==
@@ -32,14 +40,16 @@ Cmds ==
   \cup {Cmd("goto", "call", <<>>, j) : j \in 0..(MaxLen + 1)}
   \cup {Cmd("reset", "call", <<>>, 0)}
   \cup {Cmd("pastectl", "key", <<1, 5>>, 0), Cmd("pastectl", "key", <<5, 2>>, 0)}
+  \cup (IF Assign THEN {Cmd("setval", "call", gs, 0) : gs \in {<<>>, <<2>>, <<1, 2>>, <<2, 3, 1>>}} ELSE {})
 
 \* ---- text field as implemented -------------------------------------------
 Min2(a, b) == IF a < b THEN a ELSE b
 TF(v, c, n) == [val |-> v, cur |-> c, n |-> n]
 Count(tf2) == IF Orig THEN tf2.n ELSE Len(tf2.val)     \* what deletions leave in n
 CursorTo(t, i) == [t EXCEPT !.cur = Min2(i, t.n)]
-ImplKey(t, op) ==
-  LET v == t.val  c == t.cur  len == Len(t.val) IN
+Sync(t) == IF ValSync THEN TF(t.val, Min2(t.cur, Len(t.val)), Len(t.val)) ELSE t
+ImplKey(t0, op) ==
+  LET t == Sync(t0)  v == t.val  c == t.cur  len == Len(t.val) IN
   CASE op.k = "ins" -> LET v2 == Ins(v, Min2(c, len), op.gs) IN TF(v2, c + Len(op.gs), Len(v2))
     [] op.k = "home" -> CursorTo(t, 0)
     [] op.k = "end" -> CursorTo(t, t.n)
@@ -62,23 +72,26 @@ ImplPaste(t, gs) ==
   ELSE LET t2 == IF Cls(Tab, Head(gs)) # 3 THEN ImplKey(t, Cmd("ins", "key", <<Head(gs)>>, 0))
                  ELSE IF PasteExec THEN ImplKey(t, Cmd("enter", "key", <<>>, 0)) ELSE t
        IN ImplPaste(t2, Tail(gs))
-Impl(t, op) == IF op.k = "pastectl" THEN ImplPaste(t, op.gs) ELSE ImplKey(t, op)
+Impl(t, op) == IF op.k = "pastectl" THEN ImplPaste(t, op.gs)
+               ELSE IF op.k = "setval" THEN TF(op.gs, t.cur, t.n)     \* an assignment: no code of the widget runs
+               ELSE ImplKey(t, op)
 ImplCol(t) == WidthOf(Tab, SubSeq(t.val, 1, Min2(t.cur, Len(t.val))))
 
 Obs(s, t) == t.val = s.text /\ ImplCol(t) = WidthOf(Tab, SubSeq(s.text, 1, s.cur))
-Init == ed = Empty /\ tf = TF(<<>>, 0, 0) /\ steps = 0
+Init == ed = Empty /\ tf = TF(<<>>, 0, 0) /\ steps = 0 /\ assigned = FALSE
 Step ==
   /\ steps < MaxSteps
   /\ steps' = steps + 1
   /\ \E op \in Cmds :
-       /\ Len(ed.text) + Len(op.gs) <= MaxLen
+       /\ assigned' = (op.k = "setval")
+       /\ IF op.k = "setval" THEN ~assigned /\ Len(op.gs) <= MaxLen ELSE Len(ed.text) + Len(op.gs) <= MaxLen
        /\ tf' = Impl(tf, op)
        /\ LET m == {s \in Next(Tab, Cfg, ed, op) : Obs(s, Impl(tf, op))} IN
             IF m # {} THEN ed' \in m ELSE ed' \in Next(Tab, Cfg, ed, op)
 Spec == Init /\ [][Step]_vars
 
 CursorInside == Inv(ed)
-View == <<ed, tf>>
+View == <<ed, tf, assigned>>
 Conform == Obs(ed, tf)
 
 \* ---- text input word commands as implemented ------------------------------
@@ -129,6 +142,20 @@ ASSUME Kept(Tab, <<5, 1, 5>>) = {<<5, 1, 5>>, <<1, 5>>, <<5, 1>>, <<1>>} /\ Kept
 ASSUME ChangeOK(Ed(<<1>>, 1), Ed(<<1, 2, 3>>, 3), Cmd("pastectl", "key", <<2, 5, 3>>, 0), <<<<1, 2>>, <<1, 2, 3>>>>)
 ASSUME ~ChangeOK(Ed(<<1>>, 1), Ed(<<1, 2, 3>>, 3), Cmd("pastectl", "key", <<2, 5, 3>>, 0), <<<<1, 2>>, <<1, 2>>, <<1, 2, 3>>>>)
 ASSUME ~SubmitOK(Ed(<<1>>, 1), Cmd("pastectl", "key", <<5>>, 0), <<<<1>>>>) /\ SubmitOK(Ed(<<1>>, 1), Cmd("pastectl", "key", <<5>>, 0), <<>>)
+\* the value assigned by the application: the cursor keeps its index and stays within the text
+ASSUME Next(Tab, Cfg, Ed(<<1, 2, 3>>, 1), Cmd("setval", "call", <<4, 4>>, 0)) = {Ed(<<4, 4>>, 1)}
+ASSUME Next(Tab, Cfg, Ed(<<1, 2, 3>>, 3), Cmd("setval", "call", <<4>>, 0)) = {Ed(<<4>>, 1)}
+ASSUME Next(Tab, Cfg, Empty, Cmd("setval", "call", <<4, 1>>, 0)) = {Ed(<<4, 1>>, 0)}
+\* a deletion that brings two graphemes together which form one cluster (fact: 4 followed by 3 is 2):
+\* the cluster takes their place, the cursor is on one of its sides
+ASSUME Next(Tab, Cfg, Ed(<<1, 4, 1, 3, 1>>, 3), Cmd("bs", "key", <<4, 3, 2>>, 0)) = {Ed(<<1, 2, 1>>, 1), Ed(<<1, 2, 1>>, 2)}
+ASSUME Next(Tab, Cfg, Ed(<<1, 4, 1, 3, 1>>, 2), Cmd("del", "key", <<4, 3, 2>>, 0)) = {Ed(<<1, 2, 1>>, 1), Ed(<<1, 2, 1>>, 2)}
+ASSUME Next(Tab, Cfg, Ed(<<4, 1, 3>>, 2), Cmd("delword", "key", <<4, 3, 2>>, 0)) = {Ed(<<2>>, 0), Ed(<<2>>, 1), Ed(<<3>>, 0)}
+\* the fact does not apply: other neighbours, a deletion at an end of the text, nothing deleted
+ASSUME Next(Tab, Cfg, Ed(<<1, 4, 1, 3, 1>>, 2), Cmd("bs", "key", <<4, 3, 2>>, 0)) = {Ed(<<1, 1, 3, 1>>, 1)}
+ASSUME Next(Tab, Cfg, Ed(<<1, 4, 3>>, 1), Cmd("bs", "key", <<4, 3, 2>>, 0)) = {Ed(<<4, 3>>, 0)}
+ASSUME Next(Tab, Cfg, Ed(<<4, 3>>, 2), Cmd("del", "key", <<4, 3, 2>>, 0)) = {Ed(<<4, 3>>, 2)}
+ASSUME Next(Tab, Cfg, Ed(<<4, 1, 3>>, 2), Cmd("bs", "key", <<>>, 0)) = {Ed(<<4, 3>>, 1)}
 \* text joining the cluster before the cursor (here: 2 = 1 + a mark): no new grapheme, the cursor stays
 ASSUME Next(Tab, Cfg, Ed(<<4, 1, 3>>, 2), Cmd("insjoin", "key", <<2>>, 1)) = {Ed(<<4, 2, 3>>, 2)}
 ASSUME Next(Tab, Cfg, Ed(<<4, 1, 3>>, 2), Cmd("pastejoin", "key", <<2, 4, 4>>, 1)) = {Ed(<<4, 2, 4, 4, 3>>, 4)}
